@@ -200,6 +200,25 @@ func (mc *MetricsCollector) UpdateBackendConnections(backendName string, connect
 	backend.ActiveConnections = connections
 }
 
+// SyncBackendConnections sets the active connections count of a backend to the value
+// read from the live gauge while holding the metrics lock. Unlike passing a value read
+// earlier, overlapping requests can then never leave an older reading behind: the last
+// writer always stores a reading at least as recent as every completed change.
+func (mc *MetricsCollector) SyncBackendConnections(backendName string, read func() int32) {
+	mc.metrics.mutex.Lock()
+	defer mc.metrics.mutex.Unlock()
+
+	backend, exists := mc.metrics.BackendMetrics[backendName]
+	if !exists {
+		backend = &BackendMetrics{
+			Name: backendName,
+		}
+		mc.metrics.BackendMetrics[backendName] = backend
+	}
+
+	backend.ActiveConnections = read()
+}
+
 // RecordRateLimitedRequest records a rate-limited request
 func (mc *MetricsCollector) RecordRateLimitedRequest() {
 	atomic.AddUint64(&mc.metrics.RateLimitedRequests, 1)
